@@ -334,6 +334,14 @@ def gen_tcp(ctx):
                 out.append(dict(cfg=cfg, n=3, steps=[("in", 0, 1), ("in", 0, 2), ("link", 0, 1, "down"), ("link", 0, 2, "down"),
                                                      ("in", 0, last), ("link", 0, first_back, "up"), ("wait", 6),
                                                      ("link", 0, other, "up"), ("wait", 6)]))
+    # an outage longer than the resync period with changes made during it (some after a failed RESYNC attempt), input
+    # stops, the link heals while the sender is idle: the peer is owed the full state
+    for p in pats:
+        cfg = dict(phen=[(1, [p])], maxcache=100, idbase=1000)
+        for st in ("down", "fail"):
+            for tail in ([("in", 0, 3), ("in", 0, 1)], [("in", 0, 3)], [("in", 0, 4)], []):
+                out.append(dict(cfg=cfg, n=2, steps=[("in", 0, 1), ("link", 0, 1, st), ("in", 0, 2), ("wait", 6), ("wait", 61), ("wait", 1)] +
+                                                    tail + [("wait", 1), ("heal",), ("wait", 11), ("wait", 11), ("wait", 11)]))
     for _ in range(120 if ctx.quick else 2000):
         n = rng.choice([2, 3, 3])
         cfg = dict(phen=[(1, [rng.choice(pats)])], maxcache=100, idbase=1000)
